@@ -39,6 +39,8 @@ pub enum Clause {
     Cr { kind: char, h: u32, pay: u32, refs: Vec<Ref>, bad: bool },
     Ud { t: Ref, val: u32, expect: Option<u64>, bad: bool },
     Ss { t: Ref, to: char, expect: Option<char> },
+    /// PURGE target CONFIRM "PURGE" (`bad`: refused while staged — the target is still referenced)
+    Pg { t: Ref, bad: bool },
     /// RETRACT ASSERTION target [EXPECT STATE active(0)/retracted(1)]
     Rt { t: Ref, expect: Option<u8> },
 }
@@ -72,6 +74,7 @@ impl Clause {
             Clause::Ud { t, val, expect, bad } => format!("ud:{}:{val}:{}:{}", t.tok(), opt(expect), *bad as u8),
             Clause::Ss { t, to, expect } => format!("ss:{}:{to}:{}", t.tok(), opt(expect)),
             Clause::Rt { t, expect } => format!("rt:{}:{}", t.tok(), opt(expect)),
+            Clause::Pg { t, bad } => format!("pg:{}:{}", t.tok(), *bad as u8),
         }
     }
     pub fn parse(tok: &str) -> Option<Clause> {
@@ -87,6 +90,7 @@ impl Clause {
                 Clause::Cr { kind, h: h.parse().ok()?, pay: pay.parse().ok()?, refs, bad: pbool(bad)? }
             }
             ["ud", t, val, ex, bad] => Clause::Ud { t: Ref::parse(t)?, val: val.parse().ok()?, expect: popt(ex)?, bad: pbool(bad)? },
+            ["pg", t, bad] => Clause::Pg { t: Ref::parse(t)?, bad: pbool(bad)? },
             ["rt", t, ex] => {
                 let expect: Option<u8> = popt(ex)?;
                 if expect.is_some_and(|v| v > 1) { return None; }
@@ -106,7 +110,7 @@ impl Clause {
             Clause::Cc { .. } => "create_concept", Clause::Up { .. } => "upsert", Clause::En { .. } => "ensure",
             Clause::Cr { kind: 'A', .. } => "create_assertion", Clause::Cr { kind: 'E', .. } => "create_evidence",
             Clause::Cr { .. } => "create_activity", Clause::Ud { .. } => "update",
-            Clause::Ss { to: 'r', .. } => "archive", Clause::Ss { .. } => "tombstone", Clause::Rt { .. } => "retract",
+            Clause::Ss { to: 'r', .. } => "archive", Clause::Ss { .. } => "tombstone", Clause::Rt { .. } => "retract", Clause::Pg { .. } => "purge",
         }
     }
 }
@@ -218,6 +222,7 @@ pub fn render(st: &Stmt) -> (String, BTreeMap<String, String>) {
                 let set = if *bad { "SET FIELDS {key: \"moved\"}".to_string() } else { format!("SET FIELDS {{name: \"n{val}\"}}") };
                 format!("UPDATE {}{e} {set}", r(t, &mut params))
             }
+            Clause::Pg { t, bad: _ } => format!("PURGE {} CONFIRM \"PURGE\"", r(t, &mut params)),
             Clause::Rt { t, expect } => {
                 let e = expect.map(|v| format!(" EXPECT STATE \"{}\"", if v == 0 { "active" } else { "retracted" })).unwrap_or_default();
                 format!("RETRACT ASSERTION {}{e}", r(t, &mut params))
@@ -250,6 +255,8 @@ pub struct Known {
     pub props: Vec<(String, u64)>,
     pub others: Vec<(String, u64)>, // assertions / evidence / activities
     pub pending: Vec<String>,
+    /// every non-shell element: (id, version, some other row refers to it)
+    pub all: Vec<(String, u64, bool)>,
 }
 
 pub fn gen_stmt(r: &mut Rng, known: &Known) -> Stmt {
@@ -353,6 +360,14 @@ pub fn gen_stmt(r: &mut Rng, known: &Known) -> Stmt {
                     None => { let h = next_h; next_h += 1; hs.push((h, 'C', 2)); Clause::Cc { h, ty: 2, key: 0, val: 1 + r.below(6) as u32, bad: want_bad } }
                 }
             }
+            96..=99 if !known.all.is_empty() => {
+                // PURGE: prefer elements with a history (version > 1) and unreferenced ones; sometimes a referenced one (refused)
+                let mut cands: Vec<&(String, u64, bool)> = known.all.iter().filter(|a| !a.2).collect();
+                if cands.is_empty() || r.chance(1, 5) { cands = known.all.iter().collect(); }
+                let hist: Vec<&(String, u64, bool)> = cands.iter().copied().filter(|a| a.1 > 1).collect();
+                let pick = if !hist.is_empty() && r.chance(2, 3) { *r.pick(&hist) } else { *r.pick(&cands) };
+                Clause::Pg { t: Ref::Id(pick.0.clone()), bad: pick.2 }
+            }
             _ => {
                 let mut all: Vec<Ref> = known.concepts.iter().map(|k| Ref::Id(k.0.clone())).collect();
                 all.extend(known.props.iter().map(|k| Ref::Id(k.0.clone())));
@@ -369,6 +384,18 @@ pub fn gen_stmt(r: &mut Rng, known: &Known) -> Stmt {
         };
         clauses.push(c);
     }
+    // a PURGE next to a conflict that only the commit can see: a CREATE claiming a (type, key) an
+    // existing Concept holds — the statement is refused after planning succeeded
+    if clauses.iter().any(|c| matches!(c, Clause::Pg { bad: false, .. })) && r.chance(2, 5) {
+        let keyed: Vec<&(String, u32, u64, String, u32)> = known.concepts.iter().filter(|k| k.4 != 0 && (k.1 == 1 || k.1 == 2)).collect();
+        if !keyed.is_empty() {
+            let k = *r.pick(&keyed);
+            let h = next_h; next_h += 1;
+            let at = r.usize(clauses.len() + 1);
+            clauses.insert(at, Clause::Cc { h, ty: k.1, key: k.4, val: 1 + r.below(6) as u32, bad: false });
+        }
+    }
+    let _ = next_h;
     // forward references: let an Evidence clause cite an Activity declared after it
     let acts: Vec<(usize, u32)> = clauses.iter().enumerate().filter_map(|(i, c)| if let Clause::Cr { kind: 'X', h, .. } = c { Some((i, *h)) } else { None }).collect();
     if let Some((ai, ah)) = acts.first().copied() {
